@@ -40,6 +40,28 @@ fn check<C: Cm>(case: &Case) -> PResult {
     ensure!(jback == orig && orig == jback, format!("json_eq/{n_}"), "JSON round trip of a {what}: {jback} != {orig}");
     check_content(&sy, &jback, codes, &format!("json_content/{n_}"))?;
     check_same_hash(&jback, &orig, &format!("json_hash/{n_}"), &format!("JSON round trip of a {what}"))?;
+    // the same formats through their other entry points (readers, slices, the JSON value tree):
+    // deserializers that cannot lend borrowed strings or that buffer differently
+    let r1: Result<Seq<C>, _> = no_panic(&format!("json_de_panic/{n_}"), "serde_json::from_reader", || serde_json::from_reader(text.as_bytes()))?;
+    let r1 = r1.map_err(|e| Fail { site: format!("json_reader_de/{n_}"), msg: format!("serde_json::from_reader of a serialized {what} failed: {e}") })?;
+    ensure!(r1 == orig, format!("json_reader_eq/{n_}"), "JSON (reader) round trip of a {what}: {r1} != {orig}");
+    let r2: Result<Seq<C>, _> = serde_json::from_slice(text.as_bytes());
+    let r2 = r2.map_err(|e| Fail { site: format!("json_slice_de/{n_}"), msg: format!("serde_json::from_slice of a serialized {what} failed: {e}") })?;
+    ensure!(r2 == orig, format!("json_slice_eq/{n_}"), "JSON (slice) round trip of a {what}");
+    let val = serde_json::to_value(&orig).map_err(|e| Fail { site: format!("json_value_ser/{n_}"), msg: e.to_string() })?;
+    let r3: Result<Seq<C>, _> = serde_json::from_value(val);
+    let r3 = r3.map_err(|e| Fail { site: format!("json_value_de/{n_}"), msg: format!("serde_json::from_value(to_value(..)) of a {what} failed: {e}") })?;
+    ensure!(r3 == orig, format!("json_value_eq/{n_}"), "JSON (value tree) round trip of a {what}");
+    let pretty = serde_json::to_string_pretty(&orig).map_err(|e| Fail { site: format!("json_pretty_ser/{n_}"), msg: e.to_string() })?;
+    let r4: Result<Seq<C>, _> = serde_json::from_str(&pretty);
+    let r4 = r4.map_err(|e| Fail { site: format!("json_pretty_de/{n_}"), msg: format!("serde_json::from_str of pretty-printed {what} failed: {e}") })?;
+    ensure!(r4 == orig, format!("json_pretty_eq/{n_}"), "JSON (pretty) round trip of a {what}");
+    let r5: Result<Seq<C>, _> = bincode::deserialize_from(&bytes[..]);
+    let r5 = r5.map_err(|e| Fail { site: format!("bincode_reader_de/{n_}"), msg: format!("bincode::deserialize_from of a serialized {what} failed: {e}") })?;
+    ensure!(r5 == orig, format!("bincode_reader_eq/{n_}"), "bincode (reader) round trip of a {what}");
+    let mut sink: Vec<u8> = vec![];
+    bincode::serialize_into(&mut sink, &orig).map_err(|e| Fail { site: format!("bincode_ser/{n_}"), msg: e.to_string() })?;
+    ensure!(sink == bytes, format!("bincode_writer/{n_}"), "bincode::serialize_into and serialize disagree for a {what}");
     // the round-tripped value is a fully working sequence: edit it like the original
     let mut e1 = back.clone();
     let mut e2 = orig.clone();
@@ -140,7 +162,7 @@ pub fn run(ctx: &mut Ctx) {
         ctx.forall(&format!("seqs/{}", id.name()), cases, gen::owned_spec_raw(id, max).prop_map(move |s| Case { codec: id, s }), dispatch);
     }
     for id in ALL_CODECS {
-        let lens = gen::long_lens(ctx.thorough());
+        let lens = gen::long_lens(ctx.thorough(), ctx.seed);
         ctx.forall_lens(&format!("seqs_long/{}", id.name()), &lens, |n| gen::owned_spec_n(id, n).prop_map(move |s| Case { codec: id, s }), dispatch);
     }
     for id in ALL_CODECS {
